@@ -2,3 +2,4 @@ import Drv.Browser
 import Drv.Diag
 import Drv.Slice
 import Drv.Bonf
+import Drv.DepGraph
